@@ -803,6 +803,8 @@ class ModelSoftLock:
 
     @staticmethod
     def is_locked(self):
+        if _W is None:
+            return _REAL["is_locked"].fget(self)
         return getattr(self, "_verif_count", 0) > 0
 
 
@@ -876,7 +878,8 @@ def install():
         return
     _REAL.update(time=time.time, sleep=time.sleep, Popen=subprocess.Popen, call=subprocess.call,
                  gethostname=socket.gethostname, uuid4=uuid.uuid4, dictConfig=logging.config.dictConfig,
-                 acquire=filelock.SoftFileLock.acquire, release=filelock.SoftFileLock.release)
+                 acquire=filelock.SoftFileLock.acquire, release=filelock.SoftFileLock.release,
+                 is_locked=filelock.SoftFileLock.is_locked)
     time.time = _time
     time.sleep = _sleep
     subprocess.Popen = _popen
